@@ -12,7 +12,7 @@
     evidence records ([program_disciplined]); and the Go memory model (data-race-free programs
     behave sequentially consistently).  Statements only; proofs are in C20/. *)
 From Coq Require Import String List Arith Bool.
-From Algo.C20 Require Import Model Interleave Locks Inventory Reviewed Main.
+From Algo.C20 Require Import Model Interleave Locks SeqRun Inventory Reviewed Main.
 From Algo.Gen Require Import C20_Globals.
 Import ListNotations.
 
@@ -65,6 +65,22 @@ Theorem C20_bracketed_no_deadlock :
     (forall t, In t ts -> bracketed Loc Val Out [] t) ->
     forall pre c, steps (init ts) pre c -> exists post, interleaving ts (pre ++ post).
 Proof. intros Loc Val Out. exact (bracketed_no_deadlock Loc Val Out). Qed.
+
+(** (a5) "One after the other" is one of the interleavings: the trace that runs thread 0 to its
+    end, then thread 1, ... is a complete interleaving, and executing it computes [seq_run], the
+    reference every other interleaving is compared with above. *)
+Theorem C20_sequential_run_is_an_interleaving :
+  forall (Loc Val Out : Type) (ts : list (thread Loc Val Out)),
+    (forall t, In t ts -> bracketed Loc Val Out [] t) ->
+    interleaving ts (seq_trace Loc Val Out ts) /\
+    forall s : store Loc Val,
+      fst (exec (seq_trace Loc Val Out ts) s) = fst (seq_run ts s) /\
+      forall i, outs_of i (snd (exec (seq_trace Loc Val Out ts) s)) = nth i (snd (seq_run ts s)) [].
+Proof.
+  intros Loc Val Out ts Hb. split.
+  - apply seq_trace_is_interleaving. exact Hb.
+  - intros s. apply seq_trace_computes_seq_run.
+Qed.
 
 (** (b) THE OBLIGATION, re-checked against the regenerated inventory on every run: every
     package-level variable of the library is immutable or synchronised (by the translator's rules,
@@ -191,6 +207,7 @@ Print Assumptions C20_shared_write_races.
 Print Assumptions C20_shared_write_races_complete.
 Print Assumptions C20_lock_discipline_no_race.
 Print Assumptions C20_bracketed_no_deadlock.
+Print Assumptions C20_sequential_run_is_an_interleaving.
 Print Assumptions C20_no_unsync_shared_state.
 Print Assumptions C20_main.
 Print Assumptions C20_premise_needed.
